@@ -32,12 +32,12 @@ Definition Xquot w (f g : fx w) : fx w := FQuot f g.
 Definition Xbreg w (f : fx w) (p s : list Q) : fx w := FBregman (S:=WS w) f p s.
 (* overloads *)
 Definition Xtranslated w (f : fx w) (t : list Q) : fx w := mk_translated (S:=WS w) f t.
-Definition Xmul vs w (f : fx w) (s : Q) : fx w := f_mul_scalar vs f s.
+Definition Xmul w (f : fx w) (s : Q) : fx w := f_mul_scalar f s.
 Definition Xrmul w (s : Q) (f : fx w) : fx w := f_rmul_scalar s f.
 Definition Xadds w (f : fx w) (c : Q) : fx w := f_add_scalar f c.
 Definition Xsub w (f g : fx w) : fx w := f_sub f g.
 Definition Xneg w (f : fx w) : fx w := f_neg f.
-Definition Xdiv vs w (f : fx w) (s : Q) : fx w := f_div_scalar vs f s.
+Definition Xdiv w (f : fx w) (s : Q) : fx w := f_div_scalar f s.
 (* leaves *)
 Definition Lconst w (c : Q) : Leaf (WS w) := leaf_const (WS w) c.
 Definition Ll2sq w : Leaf (WS w) := leaf_l2sq (WS w).
@@ -69,7 +69,7 @@ Definition Ocomp w1 w2 w3 (A : Oper (WS w2) (WS w3)) (B : Oper (WS w1) (WS w2)) 
 Inductive ilip := INan | IInf | IFin (c : Q).
 
 Record case := mkCase {
-  c_w : list Q; c_vs : variants; c_e : fx c_w;
+  c_w : list Q; c_e : fx c_w;
   c_x : list Q; c_d : list Q;
   c_val : Q; c_grad : list Q; c_deriv : Q; c_lip : ilip; c_lin : bool; c_kind : kind }.
 
@@ -100,7 +100,7 @@ Definition check (k : case) : bool :=
   && Qsclose atol rtol (c_grad k) (gradient e x)
   && Qclose atol rtol (c_deriv k) (derivative e x d)
   && lip_ok (c_lip k) (lipschitz e)
-  && beq (c_lin k) (is_linear (c_vs k) e)
+  && beq (c_lin k) (is_linear e)
   && kind_eqb (c_kind k) (kind_of e).
 
 (* which of the conjuncts fail (for diagnosing a failing case by hand) *)
@@ -112,12 +112,12 @@ Definition diagnose (k : case) : list bool :=
    Qsclose atol rtol (c_grad k) (gradient e x);
    Qclose atol rtol (c_deriv k) (derivative e x d);
    lip_ok (c_lip k) (lipschitz e);
-   beq (c_lin k) (is_linear (c_vs k) e);
+   beq (c_lin k) (is_linear e);
    kind_eqb (c_kind k) (kind_of e)].
 
 (* ---- SeparableSum(f1, f2) on ProductSpace(S1, S2) ---- *)
 Record case2 := mkCase2 {
-  k_w1 : list Q; k_w2 : list Q; k_vs : variants; k_e1 : fx k_w1; k_e2 : fx k_w2;
+  k_w1 : list Q; k_w2 : list Q; k_e1 : fx k_w1; k_e2 : fx k_w2;
   k_x1 : list Q; k_x2 : list Q; k_d1 : list Q; k_d2 : list Q;
   k_val : Q; k_g1 : list Q; k_g2 : list Q; k_deriv : Q; k_lip : ilip; k_lin : bool }.
 
@@ -131,7 +131,7 @@ Definition check2 (k : case2) : bool :=
   && Qsclose atol rtol (k_g1 k) (fst g) && Qsclose atol rtol (k_g2 k) (snd g)
   && Qclose atol rtol (k_deriv k) (derivative e x d)
   && lip_ok (k_lip k) (lipschitz e)
-  && beq (k_lin k) (is_linear (k_vs k) e).
+  && beq (k_lin k) (is_linear e).
 
 (* ---- MoreauEnvelope of L2NormSquared / L1Norm: gradient only (the code has no _call) ---- *)
 Definition prox_l2sq (sigma : Q) (x : list Q) : list Q := vscal (1 / (1 + 2 * sigma))%num x.
@@ -151,4 +151,4 @@ Definition check3 (k : case3) : bool :=
   Qsclose atol rtol (m_grad k) (gradient e x)
   && Qclose atol rtol (m_deriv k) (derivative e x d)
   && lip_ok (m_lip k) (lipschitz e)
-  && beq (m_lin k) (is_linear (mkVariants true) e).
+  && beq (m_lin k) (is_linear e).
